@@ -75,6 +75,12 @@ pub fn run(ctx: &Ctx, rng: Rng, rep: &mut Report) {
             super::types::real_ticker_scenario(f, rng.derive(777).next() >> 30, rep);
         }
     }
+    if ctx.prop == "C17" || ctx.prop == "C19" {
+        // hit-only / miss-only / empty windows of the hit-miss counters and ratio()
+        for (i, f) in flavors.iter().cycle().take(flavors.len().max(1) * ctx.n(6, 40) as usize).enumerate() {
+            super::types::ratio_scenario(*f, rng.derive(888 + i as u64).next(), rep);
+        }
+    }
     for h in 0..histories {
         let mut hrng = rng.derive(h);
         let hist_no = ctx.shard * 1_000_000 + h;
